@@ -8,9 +8,11 @@ import nauyaca.server.proxy as px
 from nauyaca.protocol.constants import MAX_RESPONSE_BODY_SIZE
 from nauyaca.server.proxy import ProxyHandler
 
-from vf import NoLog, Ob, V, pick
+import asyncio as _asyncio
+
+from vf import NoLog, Ob, V, bind, pick
 from vf.server import find_crlf, make, well_formed, wire_response
-from vf.stubs import FakeTransport
+from vf.stubs import FakeAsyncio, FakeTransport
 from vf.symbuf import Fill, SymBuf, mk
 
 px.logger = NoLog()
@@ -48,7 +50,7 @@ class _Upstream:
 def _setup(fault=None):
     ph = ProxyHandler("gemini://up.example:1970", prefix="/", strip_prefix=False, timeout=TIMEOUT)
     p, t, loop = make(ph.handle)
-    cs.asyncio = sp.asyncio                    # client and server side share the hand-driven loop
+    bind(cs, _asyncio, FakeAsyncio(loop))      # client and server side share the hand-driven loop
     up = _Upstream(loop, fault)
     p.data_received(b"gemini://front.example/doc?x=1\r\n")
     loop.run_ready()
